@@ -16,6 +16,7 @@ type Case struct {
 	PPre   int             `json:"p_pre"`            // % of gated tasks released *before* the idle handler is entered
 	RoundK int             `json:"round_k"`          // at most this many gated tasks are released per idle round (>=1)
 	Procs  int             `json:"procs"`            // GOMAXPROCS
+	MinN   int             `json:"min_n,omitempty"`  // … from MinN..MaxN when set
 	MaxN   int             `json:"max_n,omitempty"`  // list lengths / edge counts are drawn from 0..MaxN (default 3)
 	WS     bool            `json:"ws,omitempty"`     // serve over the graphql-ws WebSocket subprotocol (graphqlws.go)
 	Events int             `json:"events,omitempty"` // WS subscriptions: number of source events
